@@ -3,7 +3,7 @@
     is a permutation of its argument ([is_hasher]); every theorem quantifies over ALL hashers, i.e. over every hash
     seed, and over EVERY remove/analyze function of the driver. *)
 From Coq Require Import List NArith Bool Permutation Sorting.Sorted.
-From EV Require Import Base.Perm Gen.C11_Sort C11.Model C11.Proofs C11.BestOrder C11.Pipeline.
+From EV Require Import Base.Perm Gen.C11_Sort C11.Model C11.ModelIdx C11.Proofs C11.BestOrder C11.BestOrderIdx C11.Pipeline.
 Import ListNotations.
 Local Open Scope N_scope.
 
@@ -24,7 +24,9 @@ Proof. exact Pipeline.driver_deterministic_full. Qed.
 
 (** The same for the sort flags READ OFF TODAY'S SOURCE (Gen/C11_Sort.v, regenerated on every run): this theorem
     stops compiling when a sort disappears from an update entry point, when [update_files_by_path] stops delegating,
-    when the single-file entry point or [reindex] change shape, or when a new caller of [update_index] appears. *)
+    when the single-file entry point or [reindex] change shape, when a new caller of [update_index] appears, or when
+    a HashMap/HashSet iteration site of compilation/, db_index/, semantic/ or diagnostic/ is new (unreviewed) or
+    reviewed as order-sensitive ([hash_sites], 60 sites today). *)
 Theorem driver_current_source_deterministic :
   forall (S : Type) (remove_index analyze : S -> list fid -> S) (h1 h2 h1' h2' : list fid -> list fid)
          (v : vfs) (st : S) (batch : list (uri * bool)),
@@ -33,7 +35,8 @@ Theorem driver_current_source_deterministic :
     update_files_by_uri S remove_index analyze uri_sorts_removed uri_sorts_updated h1' h2' v st batch
     /\ path_delegates_to_uri = true /\ single_update_is_singleton = true /\ reindex_ids_in_vec_order = true
     /\ other_update_index_callers = 0
-    /\ best_order_tiebreak_by_file_id = true /\ lua_pipeline_uses_best_order = true.
+    /\ best_order_tiebreak_by_file_id = true /\ lua_pipeline_uses_best_order = true
+    /\ hash_sites_all_reviewed = true.
 Proof. exact Pipeline.driver_current_source_deterministic_full. Qed.
 
 (** Without the sort the property fails: the transcribed "first assignment types the member" step folded in
@@ -79,6 +82,25 @@ Theorem best_order_acyclic_permutation_invariant :
     (forall top, best_order_parts deps metas ids = Some (top, []) ->
                  best_order deps metas ids' = best_order deps metas ids).
 Proof. exact Pipeline.best_order_acyclic_permutation_invariant_full. Qed.
+
+(** The LITERAL transcription of get_best_analysis_order (ModelIdx.v: file_to_idx map, in_degree / adjacency vectors
+    filled by the nested build loop over the HashSets in their iteration order, index queue, sort_by on indices,
+    leftover scan over in_degree) computes exactly the closed form used above, for every duplicate-free id list and
+    every iteration order of the dependency sets ... *)
+Theorem best_order_literal_is_closed_form :
+  forall (deps : fid -> list fid) (metas ids : list fid),
+    NoDup ids -> (forall f, NoDup (deps f)) ->
+    best_order_idx deps metas ids = best_order deps metas ids.
+Proof. exact BestOrderIdx.best_order_idx_equiv. Qed.
+
+(** ... so with the driver's sorted id list the literal algorithm is a function of the file set, the dependency
+    relation and the meta set. *)
+Theorem best_order_literal_deterministic :
+  forall (deps deps' : fid -> list fid) (metas metas' ids ids' : list fid),
+    NoDup ids -> Permutation ids ids' ->
+    (forall f, NoDup (deps f)) -> (forall f, Permutation (deps f) (deps' f)) -> Permutation metas metas' ->
+    best_order_idx deps metas (sort_ids ids) = best_order_idx deps' metas' (sort_ids ids').
+Proof. exact BestOrderIdx.best_order_idx_deterministic. Qed.
 
 (** ... and with a cycle the input order does show through (why the driver has to sort). *)
 Theorem best_order_cycle_input_order_refuted :
